@@ -13,7 +13,7 @@ PROP = 'C09'
 LEVEL = 'model_checking'
 RULE = ('states = canonical form of the real Circuit (node list with kinds and pin lists, line list, io list); transitions = public edit operations '
         '(Node, Line implicit/explicit on free pins, Line.remove, Node.remove of disconnected nodes, io_nodes append/replace, get_or_add_fork, '
-        'eliminate_1to1_forks, substitute from a menu of implementations, copy, pickle round trip) over name pools; BFS to a depth bound from the '
+        'eliminate_1to1_forks, substitute from a menu of 7 implementations (bench-parsed with fork ports; hand-built with port cells and fan-out/alias forks in a row, with and without 1:1 forks eliminated), copy, pickle round trip) over name pools; BFS to a depth bound from the '
         'empty circuit and from seeded non-initial states; distinct_nontrivial = distinct canonical states')
 ASSUMPTIONS = ['well-formed use only: explicit pins on free positions (forks: first free output pin, input pin 0), nodes removed only when disconnected and not a port, '
                'eliminate_1to1_forks only when every single-output non-port fork has a driver, substitute only when pin counts fit',
@@ -24,6 +24,17 @@ FORKS = ['f0', 'f1', 'f2']
 CELLS = [('c0', 'AND2'), ('c1', 'dff'), ('c2', 'OR2')]
 
 
+def _impl_fork_chain():
+    """hand-built implementation whose first output port sits behind a fan-out stem and an alias fork (two non-port forks in a row), cell ports"""
+    from kyupy.circuit import Circuit, Node, Line
+    c = Circuit('chain')
+    a = Node(c, 'a', 'input'); y = Node(c, 'y', 'output'); z = Node(c, 'z', 'output')
+    for n in (a, y, z): c.io_nodes.append(n)
+    g = Node(c, 'g', 'BUF1'); s1 = Node(c, 's1'); s2 = Node(c, 's2'); h = Node(c, 'h', 'INV1')
+    Line(c, a, g); Line(c, g, s1); Line(c, s1, s2); Line(c, s2, y); Line(c, s1, h); Line(c, h, z)
+    return c
+
+
 def impl_menu():
     from kyupy import bench
     return [
@@ -32,6 +43,8 @@ def impl_menu():
         bench.parse('input(a) output(y,z) y=BUF1(a) z=INV1(y)'),              # output read internally, two outputs
         bench.parse('input(a,b) output(y) y=BUF1(a)'),                        # ignored input
         bench.parse('input(x,y,z) output(q) t=INV1(x) q=OR2(z,t)'),          # ignored input at a position that the designated cell wires internally
+        _impl_fork_chain(),                                                  # forks in a row between the gate and the first output port
+        _impl_fork_chain(),                                                  # the same, kept as parsed (1:1 alias fork not eliminated)
     ]
 
 
@@ -43,7 +56,7 @@ class CircuitSystem:
         self.cells = CELLS[:ncells]
         self.impls = impl_menu() if with_subst else []
         self.max_nodes, self.max_lines = max_nodes, max_lines
-        for im in self.impls: im.eliminate_1to1_forks()
+        for im in self.impls[:6]: im.eliminate_1to1_forks()
         self.swap_deletions = 0
 
     # ---- E2 interface
